@@ -39,17 +39,6 @@ func c03Table() []GuardReq {
 	add(req("v1-sig-all-supplied", VT, "make[*].need", opGT, "const:0", "dropping a required signature makes the transaction invalid"))
 	// ---- v1 Foundation update ----
 	fctx := []string{"%CH% >= %NET%.HardforkFoundation.Height", "call bytes.HasPrefix(%T1%.ArbitraryData[*], global types.SpecifierFoundation) is true"}
-	r = req("v1-foundation:signed", VT, "phi(const:false|const:true|%T1%.Signatures[*].CoveredFields.WholeTransaction)", opF, "", "a Foundation address update must be signed (whole transaction) by a current Foundation key", fctx...)
-	add(r)
-	r = req("v1-foundation:subsidy-key", VT, "call (types.UnlockConditions).UnlockHash(%T1%.SiacoinInputs[*].UnlockConditions)", opNE, "%ST%.FoundationSubsidyAddress", "the signing input must be controlled by the current subsidy or management address", fctx...)
-	r.Weak = true
-	add(r)
-	r = req("v1-foundation:management-key", VT, "call (types.UnlockConditions).UnlockHash(%T1%.SiacoinInputs[*].UnlockConditions)", opNE, "%ST%.FoundationManagementAddress", "the signing input must be controlled by the current subsidy or management address", append(fctx, "… != %ST%.FoundationSubsidyAddress")...)
-	r.Weak = true
-	add(r)
-	r = req("v1-foundation:sig-parent", VT, "%T1%.Signatures[*].ParentID", opEQ, "%T1%.SiacoinInputs[*].ParentID", "the whole-transaction signature must belong to that input", append(fctx, "phi(…WholeTransaction) is false", "…UnlockHash(…) …")...)
-	r.Weak = true
-	add(r)
 	add(req("v1-foundation:decodes", VT, "call (types.Decoder).Err(…)", opNE, "nil", "a malformed update is rejected", fctx...))
 	// ---- v2 inputs ----
 	for _, k := range [][2]string{{"SiacoinInputs", "SiacoinOutput"}, {"SiafundInputs", "SiafundOutput"}} {
@@ -90,7 +79,8 @@ func runC03(c *Ctx) {
 	ge := NewGuardEngine(c.P, c.Depth+4)
 	tab := c03Table()
 	runGuardTable(c, "auth-guard", ge, tab)
-	c.Min("auth-guard", len(tab))
+	c03FoundationSigned(c, ge)
+	c.Min("auth-guard", len(tab)+4)
 	c03SigMap(c, ge)
 	progs := ExtractWirePrograms(c.P)
 	c03SigHashCoverage(c, progs)
@@ -231,6 +221,84 @@ func c03FoundationWriters(c *Ctx, ge *GuardEngine) {
 		}
 		if n == 0 {
 			c.Undecided("foundation-writers", r.typ+"."+r.field, "", "no writer found at all (field renamed?)")
+		}
+	}
+}
+
+// c03FoundationSigned: a v1 Foundation address update is rejected unless SOME siacoin input is
+// controlled by the current subsidy or management address AND a whole-transaction signature belongs
+// to that input. The existence test is decided on the flag's truth conditions (flagdnf.go), so the
+// spelling (continue-guards, ||-accumulation, loop condition, nested ifs) does not matter.
+func c03FoundationSigned(c *Ctx, ge *GuardEngine) {
+	const rule = "auth-guard"
+	gs, ok := ge.EntryGuards(VT)
+	if !ok {
+		c.Undecided(rule, "v1-foundation:signed", VT, "entry does not resolve")
+		return
+	}
+	fctx := compileAll(pats("%CH% >= %NET%.HardforkFoundation.Height", "call bytes.HasPrefix(%T1%.ArbitraryData[*], global types.SpecifierFoundation) is true"))
+	prefix := fctx[1]
+	keyRe := regexp.MustCompile(pat("call (types.UnlockConditions).UnlockHash(%T1%.SiacoinInputs[*].UnlockConditions) == %ST%.Foundation") + "__")
+	keyRe = regexp.MustCompile(strings.TrimSuffix(strings.TrimSuffix(keyRe.String(), "__"), "$") + `(Subsidy|Management)Address$`)
+	parentRe := []*regexp.Regexp{regexp.MustCompile(pat("%T1%.Signatures[*].ParentID == %T1%.SiacoinInputs[*].ParentID")), regexp.MustCompile(pat("%T1%.SiacoinInputs[*].ParentID == %T1%.Signatures[*].ParentID"))}
+	wholeRe := regexp.MustCompile(pat("%T1%.Signatures[*].CoveredFields.WholeTransaction is true"))
+	var cands []Guard
+	var altsOf [][]conj
+	for _, g := range gs {
+		if g.Weak {
+			continue
+		}
+		under := false
+		for _, d := range g.Ctx {
+			if prefix.MatchString(d) {
+				under = true
+			}
+		}
+		if !under {
+			continue
+		}
+		alts, isFlag := ge.FlagAlternatives(g)
+		if !isFlag {
+			continue
+		}
+		cands = append(cands, g)
+		altsOf = append(altsOf, alts)
+	}
+	if len(cands) == 0 {
+		c.Fail(rule, "v1-foundation:signed", VT, "no rejecting existence test guards a Foundation address update: a Foundation address update must be signed (whole transaction) by a current Foundation key")
+		return
+	}
+	for i, g := range cands {
+		where := c.P.Pos(g.Pos)
+		why := ge.siteProblemsOpt(g, fctx, false)
+		if len(altsOf[i]) == 0 && why == "" {
+			why = "the tested flag can never be true"
+		}
+		c.Check(why == "", rule, "v1-foundation:signed", where, ifElse(why == "", fmt.Sprintf("an update is rejected unless the signed-by-a-current-key flag is set (%d way(s) to set it)", len(altsOf[i])), why+" — a Foundation address update must be signed (whole transaction) by a current Foundation key"))
+		type need struct {
+			id, clause string
+			match      func(string) bool
+		}
+		needs := []need{
+			{"v1-foundation:current-key", "the signing input must be controlled by the current subsidy or management address", keyRe.MatchString},
+			{"v1-foundation:sig-parent", "the whole-transaction signature must belong to that input", func(s string) bool { return parentRe[0].MatchString(s) || parentRe[1].MatchString(s) }},
+			{"v1-foundation:whole-transaction", "the signature must cover the whole transaction", wholeRe.MatchString},
+		}
+		for _, n := range needs {
+			bad := ""
+			for _, alt := range altsOf[i] {
+				found := false
+				for _, a := range alt {
+					if n.match(a.String()) {
+						found = true
+					}
+				}
+				if !found {
+					bad = alt.key()
+					break
+				}
+			}
+			c.Check(bad == "", rule, n.id, where, ifElse(bad == "", "every way of setting the flag requires it", "the flag can be set when only ["+bad+"] holds — "+n.clause))
 		}
 	}
 }
